@@ -207,6 +207,15 @@ def run_case(desc):
                     out.fail("simple-nearest", "expected atom %d, got %r" % (best, ms[0]))
                 elif np.abs(np.array(ds[0], float) - v[best]).max() > 1e-7 * scale:
                     out.fail("simple-displacement", "displacement %s, expected %s" % (np.array(ds[0]).tolist(), v[best].tolist()))
+        # ---- get_neighbours_for_index(i) is the position query at the i-th entry of the extended system (the originals come first)
+        for i in range(min(n, 2)):
+            ok, ri = call(cl.get_neighbours_for_index, i)
+            ok2, rp = call(cl.get_neighbours_for_position, float(pos[i][0]), float(pos[i][1]), float(pos[i][2]))
+            if not ok or not ok2:
+                out.fail("returns-normally", "get_neighbours_for_index: %r" % (ri if not ok else rp), key="exc-index:" + exc_key(ri if not ok else rp))
+            elif sorted(zip(ri.indices_original, map(tuple, ri.factors))) != sorted(zip(rp.indices_original, map(tuple, rp.factors))) \
+                    or not np.allclose(sorted(ri.distances), sorted(rp.distances), atol=atol, rtol=0):
+                out.fail("query-by-index", "get_neighbours_for_index(%d) differs from the position query at that atom" % i)
         # ---- the same queries as ONE batched call (how every caller uses get_matches): results must not depend on
         #      what the other positions of the batch were --------------------------------------------------------
         if len(batch) >= 2:
